@@ -114,7 +114,8 @@ class DualQuaternion:
         """
         a = self.real * self.real.conj()
         b = self.real * self.dual.conj() + self.dual * self.real.conj()
-        return (base.sqrt(a.s), base.sqrt(b.s))
+        # sqrt of the dual number a + eps b is sqrt(a) + eps b / (2 sqrt(a))
+        return (base.sqrt(a.s), b.s / (2 * base.sqrt(a.s)))
 
     def conj(self):
         r"""
